@@ -32,6 +32,14 @@ def cells(tier):
                 sc = scen(pool(size), acts, outcomes=["ret"], ecb="plain", ccb="plain")
                 out.append(cell(f"s{size} {rn} gac+after{' until' if un else ''}", sc, MON))
     for size in [1, 2]:
+        sc = scen(pool(size), [[A("X", size)], [A("A", 2), cgroup("A"), A("B", 3)], [GAC]], outcomes=["ret"])
+        out.append(cell(f"s{size} X{size}|A2,cgroupA,B3 (auto name re-used at once)|gac", sc, MON))
+        # tasks whose body never suspends, cancelled before their first step, with suspending end callbacks
+        sc = scen(pool(2), [[A("A", 2, worker="instant")], [cancel(rid("A", size - 1))], [GAC]], outcomes=["ret"], ecb="slow", ccb="plain", slow_ids=[0, 1])
+        out.append(cell(f"s2 A2 instant cancel{size - 1} gac slowecb", sc, MON))
+        sc = scen(pool(2), [[A("A", 2, worker="instant")], [cgroup("A")], [GAC]], outcomes=["ret"], ecb="slow", ccb="coro", slow_ids=[0, 1])
+        out.append(cell(f"s2 A2 instant cgroup gac slowecb ({size})", sc, MON)) if size == 1 else None
+    for size in [1, 2]:
         sc = scen(pool(size), [[M("G", 3, 1, name="g")], [cgroup("G"), M("G2", 3, 1, name="g", needs_cancelled="G")], [GAC]], outcomes=["ret"])
         out.append(cell(f"s{size} M3/1 g|cgroup,M3/1 g again|gac", sc, MON))
         sc = scen(pool(size), [[M("G", 3, 1)], [cgroup("G"), M("G2", 2, 1)], [GAC]], outcomes=["ret"])
